@@ -358,10 +358,16 @@ def correspondence(ctx: Ctx):
 
 
 def run(ctx: Ctx):  # noqa: F811
-    data = gen(ctx)
-    ctx.copy_coq("C17")
-    status = ctx.coq_build()
-    ctx.register_props(status)
+    gen_err = None
+    try:
+        data = gen(ctx)
+    except P.Unsupported as e:  # translator fails closed: the tie is broken; still search the implementation for a failing input
+        gen_err, data = e, json.loads((SRC / "data" / "atomic_gauss_params.json").read_text())
+    status = {}
+    if gen_err is None:
+        ctx.copy_coq("C17")
+        status = ctx.coq_build()
+        ctx.register_props(status)
     if status.get("C17_refuted_p.v"):
         ctx.mark_refuted("p_poisson", "p_poisson_refuted_lemma")
     fails = sweep(ctx)
@@ -375,16 +381,25 @@ def run(ctx: Ctx):  # noqa: F811
             ctx.fail(name, f"coulomb_gaussian_{kind}(r={r}, alpha={al}, normalized={norm})", round(got, 9),
                      f"coulomb_gaussian_{kind}(r={r}, alpha={al}, normalized={norm}) = {got}; the potential of the documented density is {exp}",
                      {"reproduce": f"grid.coulomb.coulomb_gaussian_{kind}(np.array([{r}]), {al}, normalized={norm})", "expected": exp})
+    cands = []
     for (kind, what), (al, r, norm, got, exp) in fails.items():
         if (kind, what) in used:
             continue
         if what in ("far",) and (kind, "potential") in fails:
             continue  # consequence of the same wrong formula
-        ctx.fail(f"sweep_{kind}_{what}", f"coulomb_gaussian_{kind}:{what}(r={r}, alpha={al}, normalized={norm})", round(got, 9),
-                 f"coulomb_gaussian_{kind} {what}: r={r}, alpha={al}, normalized={norm}: got {got}, expected {exp}",
-                 {"reproduce": f"grid.coulomb.coulomb_gaussian_{kind}(np.array([{r}]), {al}, normalized={norm})", "expected": exp})
+        key = f"coulomb_gaussian_{kind}({'' if what == 'potential' else what + ':'}r={r}, alpha={al}, normalized={norm})"
+        text = f"coulomb_gaussian_{kind} {what}: r={r}, alpha={al}, normalized={norm}: got {got}, expected {exp}"
+        rp = {"reproduce": f"grid.coulomb.coulomb_gaussian_{kind}(np.array([{r}]), {al}, normalized={norm})", "expected": exp}
+        if gen_err is not None:
+            cands.append((key, round(got, 9), text, rp))
+            if ctx.is_known(key, round(got, 9)):
+                ctx.fail(f"sweep_{kind}_{what}", key, round(got, 9), text, rp)
+        else:
+            ctx.fail(f"sweep_{kind}_{what}", key, round(got, 9), text, rp)
+    if gen_err is not None:
+        ctx.broken_tie("translator(coulomb.py)", gen_err, cands)
     check_superposition_and_params(ctx, data)
-    if status.get("C17_gen.v") and status.get("C17_erf.v"):
+    if gen_err is None and status.get("C17_gen.v") and status.get("C17_erf.v"):
         correspondence(ctx)
     ctx.cov["rule"] = ("sweep: implementation vs mpmath Coulomb integrals of the documented densities over alpha in 1e-3..1e4 and r in {0, around the switch, "
                        "..., 60/sqrt(alpha)}; correspondence: `integral`+`interval` enclosures of the generated main/small terms at random dyadic (alpha, r); "
